@@ -3,7 +3,7 @@
 Require Extraction.
 Require ExtrOcamlBasic.
 From Coq Require Import ZArith List.
-From CV Require Import Model.RunPlc Model.RunLogix Model.RunTnet Model.RunRoute Model.RunDotdict Model.RunCodec Model.RunEngine Model.RunRegex Model.RunSource Model.RunFraming Model.RunTimes Model.RunHistory Model.RunSession Model.RunClient Model.RunConcurrent.
+From CV Require Import Model.RunPlc Model.RunLogix Model.RunTnet Model.RunRoute Model.RunDotdict Model.RunCodec Model.RunEngine Model.RunRegex Model.RunSource Model.RunFraming Model.RunTimes Model.RunHistory Model.RunSession Model.RunClient Model.RunConcurrent Model.RunConnected.
 Extraction Language OCaml.
 Definition z_ten := 10%Z.
-Extraction "model.ml" z_ten Z.add Z.mul Z.opp Z.div_eucl Z.eqb Z.ltb run_plc run_logix run_tnet run_route run_dotdict run_codec run_engine run_regex run_source run_framing run_times run_history run_session run_client run_concurrent.
+Extraction "model.ml" z_ten Z.add Z.mul Z.opp Z.div_eucl Z.eqb Z.ltb run_plc run_logix run_tnet run_route run_dotdict run_codec run_engine run_regex run_source run_framing run_times run_history run_session run_client run_concurrent run_connected.
